@@ -189,6 +189,9 @@ func (e *DNSEntry) decodeRRs(count int, p DNS, offset int, buffer []byte) (int, 
 			return 0, false, fmt.Errorf("invalid label: %w", err)
 		}
 
+		if endq+10 > len(p) { // type, class, ttl and rdlength must be present
+			return 0, false, fmt.Errorf("invalid resource record len: %w", ErrInvalidLen)
+		}
 		t := binary.BigEndian.Uint16(p[endq : endq+2]) // type
 		// class = binary.BigEndian.Uint16(p[endq+2 : endq+4])
 		ttl := binary.BigEndian.Uint32(p[endq+4 : endq+8]) // number of seconds the RR can be cached
